@@ -125,6 +125,8 @@ func TestCheck(t *testing.T) {
 	r.Require("rl_window_refreshes", 8)
 	r.Require("rl_window_group_filters_built_inside_the_window", 2000)
 	r.Require("rl_window_group_probes_after_refresh_returned", 2000)
+	r.Require("seq_failed_hash_refreshes", 30)
+	r.Require("seq_requery_of_cached_host_after_failed_hash_refresh", 300)
 	r.Require("seq_answer_name_case_pair_lower_case_first", 100)
 	r.Require("seq_answer_name_case_pair_mixed_case_first", 100)
 	r.Require("seq_qtype_pair_mod_256_low_type_first", 100)
@@ -400,7 +402,11 @@ func runSeqHistory(r *vkit.Run, s *srv, idx int) {
 	h.hot = append(h.hot, query{Host: "typed." + tl + ".test", QType: dns.TypeA}, query{Host: "typed." + tl + ".test", QType: dns.TypeAAAA})
 	steps := 80
 	sandwichAt := 10 + h.rng.IntN(60)
+	faultAt := 10 + h.rng.IntN(60)
 	for st := 0; st < steps && !h.aborted; st++ {
+		if st == faultAt {
+			h.failedHashRefresh(hashKinds[idx%3], []string{"middle", "end", "start"}[(idx/3)%3])
+		}
 		if st == sandwichAt {
 			h.zeroRuleSandwich(zeroKinds[idx%len(zeroKinds)])
 			continue
@@ -1154,4 +1160,100 @@ func (h *seqHist) answerCasePair(q *requester, target string) {
 		h.evalQuery("probe", q, q.customVer(), query{Host: "answer.example.test", QType: dns.TypeA, Resp: true, Ans: "cname:" + sp})
 	}
 	h.r.Bucket(b, 1)
+}
+
+// failedHashRefresh warms the result cache of one hash-prefix filter, then lets
+// its refresh download a corrupted list (valid, CHANGED head, then a line that
+// no line scanner accepts), and asks everything again.  Whatever the storage
+// holds afterwards, cache on and cache off must agree; and if the refresh
+// reported an error, the verdicts must be those of the previous version (the
+// reference storage is not rebuilt).
+func (h *seqHist) failedHashRefresh(k, form string) {
+	rng := h.rng
+	who := h.enabledFor(k)
+	if len(who) == 0 || h.aborted {
+		return
+	}
+	old := h.c.Hash[k]
+	if old < 1 || old >= maxV {
+		old = 1 + rng.IntN(maxV-1)
+		h.hashRefreshTo(k, old)
+		if h.aborted {
+			return
+		}
+	}
+	head := newVer(rng, old, 0)
+	// hosts listed before, hosts listed only in the head of the corrupted
+	// list, hosts listed in neither: positive and negative cached results
+	var asked []askedPair
+	for j := 1; j <= maxV; j++ {
+		for _, qt := range []uint16{dns.TypeA, dns.TypeHTTPS} {
+			if qt == dns.TypeHTTPS && j%2 == 0 {
+				continue
+			}
+			asked = append(asked, askedPair{who[rng.IntN(len(who))], query{Host: hashHost(k, j), QType: qt}})
+		}
+	}
+	asked = append(asked,
+		askedPair{who[rng.IntN(len(who))], query{Host: "fixed." + k + ".test", QType: dns.TypeA}},
+		askedPair{who[rng.IntN(len(who))], query{Host: "tail." + k + ".test", QType: dns.TypeA}},
+		askedPair{who[rng.IntN(len(who))], query{Host: "www." + hashHost(k, max(old, head)), QType: dns.TypeAAAA}},
+	)
+	for _, p := range asked {
+		h.evalQuery("before-failed-hash-refresh", p.q, p.q.customVer(), p.qu)
+	}
+	if h.aborted {
+		return
+	}
+	h.c.Hash[k] = head
+	if h.c.HashFault == nil {
+		h.c.HashFault = map[string]string{}
+	}
+	h.c.HashFault[k] = form
+	h.s.set(h.c)
+	before := h.s.snapshotHits()
+	var errs []string
+	for _, e := range []*env{h.cached, h.uncached} {
+		if err := e.hp[k].Refresh(context.Background()); err != nil {
+			errs = append(errs, err.Error())
+		}
+	}
+	delete(h.c.HashFault, k)
+	if !h.checkFetched(before, []string{"/hp/" + k}, 2) {
+		return
+	}
+	switch len(errs) {
+	case 2:
+		// the refresh was rejected: the previous version stays in force
+		h.c.Hash[k] = old
+		h.r.Bucket("seq_failed_hash_refreshes", 1)
+	case 0:
+		// the corrupted list was accepted: the reference is whatever a new
+		// filter makes of the same body
+		h.r.Bucket("seq_corrupted_hash_list_accepted", 1)
+		h.c.HashFault[k] = form
+		h.s.set(h.c)
+		ok := h.rebuildFresh(k, false)
+		delete(h.c.HashFault, k)
+		if !ok {
+			return
+		}
+	default:
+		h.r.Inconclusive(fmt.Sprintf("seq history %d: the twins disagree on whether the corrupted hash list was accepted: %v", h.idx, errs))
+		h.aborted = true
+		return
+	}
+	h.s.set(h.c)
+	h.epoch++
+	m := fmt.Sprintf("step %d: served hash list %s := version %d followed by an over-long line (%s); Refresh() of that filter in both twins returned errors %q (list version before: %d)",
+		len(h.log), k, head, form, errs, old)
+	h.mutations = append(h.mutations, m)
+	h.logf("failed-hash-refresh %s v%d -> corrupted v%d (%s): %d errors", k, old, head, form, len(errs))
+	for _, p := range asked {
+		if h.aborted {
+			return
+		}
+		h.evalQuery("after-failed-hash-refresh", p.q, p.q.customVer(), p.qu)
+		h.r.Bucket("seq_requery_of_cached_host_after_failed_hash_refresh", 1)
+	}
 }
